@@ -68,7 +68,7 @@ DocumentedShorthands ==
   {"m", "M", "", "dim", "aug", "+", "7#5", "M7+5", "M7+", "m7+", "7+", "sus47", "7sus4", "sus4", "sus2", "sus",
    "11", "add11", "sus4b9", "susb9", "m7", "M7", "dom7", "7", "m7b5", "dim7", "m/M7", "mM7", "m6", "M6", "6",
    "6/7", "67", "6/9", "69", "9", "add9", "7b9", "7#9", "M9", "m9", "7#11", "m11", "M13", "m13", "13", "add13",
-   "7b5", "hendrix", "7b12", "5"}
+   "7b5", "hendrix", "7b12", "5", "M11"}
 
 \* ---- Law: a chord (sequence of names) realises the formula of meaning m on root
 LawChord(m, root, r) ==
